@@ -449,6 +449,8 @@ class TAPParser:
                 except ValueError:
                     yield self.Error('test number is too large')
                     self.last_test += 1
+                if self.last_test < 1:
+                    yield self.Error('test numbers start at 1')
                 self.highest_test = max(self.highest_test, self.last_test)
                 self.seen_tests = self.seen_tests | {self.last_test}
                 if self.plan and self.last_test > self.plan.num_tests:
